@@ -215,15 +215,15 @@ func newCtx() *Ctx {
 	c := &Ctx{sorts: map[string]*Sort{}, declared: map[string]bool{}, strLits: map[string]Term{}, globals: map[string]Term{}, notes: map[string]bool{}}
 	c.emit("(declare-sort Str 0)")
 	c.emit("(declare-sort Err 0)")
-	c.emit("(declare-fun str.len (Str) Int)")
-	c.emit("(declare-fun str.at (Str Int) Int)")
-	c.emit("(assert (forall ((s Str)) (! (>= (str.len s) 0) :pattern ((str.len s)))))")
-	c.emit("(assert (forall ((s Str) (i Int)) (! (and (<= 0 (str.at s i)) (< (str.at s i) 256)) :pattern ((str.at s i)))))")
-	c.emit("(declare-fun str.lt (Str Str) Bool)")
+	c.emit("(declare-fun gs.len (Str) Int)")
+	c.emit("(declare-fun gs.at (Str Int) Int)")
+	c.emit("(assert (forall ((s Str)) (! (>= (gs.len s) 0) :pattern ((gs.len s)))))")
+	c.emit("(assert (forall ((s Str) (i Int)) (! (and (<= 0 (gs.at s i)) (< (gs.at s i) 256)) :pattern ((gs.at s i)))))")
+	c.emit("(declare-fun gs.lt (Str Str) Bool)")
 	c.emit("(declare-const err.nil Err)")
-	c.emit("(declare-const str.empty Str)")
-	c.emit("(assert (= (str.len str.empty) 0))")
-	c.emit("(assert (forall ((s Str)) (! (=> (= (str.len s) 0) (= s str.empty)) :pattern ((str.len s)))))")
+	c.emit("(declare-const gs.empty Str)")
+	c.emit("(assert (= (gs.len gs.empty) 0))")
+	c.emit("(assert (forall ((s Str)) (! (=> (= (gs.len s) 0) (= s gs.empty)) :pattern ((gs.len s)))))")
 	// Go truncated division / remainder over Int.
 	c.emit("(define-fun go.div ((a Int) (b Int)) Int (ite (>= a 0) (ite (> b 0) (div a b) (- (div a (- b)))) (ite (> b 0) (- (div (- a) b)) (div (- a) (- b)))))")
 	c.emit("(define-fun go.mod ((a Int) (b Int)) Int (- a (* b (go.div a b))))")
@@ -536,7 +536,12 @@ func wrapInt(t Term, ii intInfo) Term {
 // (integer ranges, non-negative lengths); shallow for containers, with a quantified
 // element fact for slices of integers.
 func (c *Ctx) typeFacts(t Term, gt types.Type, depth int) Term {
-	if gt == nil || depth > 3 {
+	return c.typeFactsQ(t, gt, 1, 0)
+}
+
+// typeFactsQ: q is the remaining budget of nested quantifiers (slice elements, map values).
+func (c *Ctx) typeFactsQ(t Term, gt types.Type, q int, depth int) Term {
+	if gt == nil || depth > 8 {
 		return tTrue
 	}
 	gt = types.Unalias(gt)
@@ -554,22 +559,24 @@ func (c *Ctx) typeFacts(t Term, gt types.Type, depth int) Term {
 			et = u.Elem()
 			facts = append(facts, tEq(c.slLen(t), tInt(u.Len())))
 		}
-		if et != nil {
-			j := Term{S: "j!q", Sort: sortInt}
-			ef := c.typeFacts(c.slAt(t, j), et, depth+1)
+		if et != nil && q > 0 {
+			jn := fmt.Sprintf("j!q%d", depth)
+			j := Term{S: jn, Sort: sortInt}
+			ef := c.typeFactsQ(c.slAt(t, j), et, q-1, depth+1)
 			if ef.S != "true" {
-				facts = append(facts, Term{S: fmt.Sprintf("(forall ((j!q Int)) (! %s :pattern (%s)))", ef.S, c.slAt(t, j).S), Sort: sortBool})
+				facts = append(facts, Term{S: quantPat(fmt.Sprintf("(%s Int)", jn), ef.S, c.slAt(t, j).S), Sort: sortBool})
 			}
 		}
 		return tAnd(facts...)
 	case KMap:
 		facts := []Term{app(sortBool, "<=", tInt(0), c.mapCard(t))}
 		facts = append(facts, tImp(c.mapNil(t), tEq(c.mapCard(t), tInt(0))))
-		if m, ok := gt.Underlying().(*types.Map); ok {
-			k := Term{S: "k!q", Sort: t.Sort.Key}
-			ef := c.typeFacts(c.mapVal(t, k), m.Elem(), depth+1)
+		if m, ok := gt.Underlying().(*types.Map); ok && q > 0 {
+			kn := fmt.Sprintf("k!q%d", depth)
+			k := Term{S: kn, Sort: t.Sort.Key}
+			ef := c.typeFactsQ(c.mapVal(t, k), m.Elem(), q-1, depth+1)
 			if ef.S != "true" {
-				facts = append(facts, Term{S: fmt.Sprintf("(forall ((k!q %s)) (! %s :pattern (%s)))", t.Sort.Key.Name, ef.S, c.mapVal(t, k).S), Sort: sortBool})
+				facts = append(facts, Term{S: quantPat(fmt.Sprintf("(%s %s)", kn, t.Sort.Key.Name), ef.S, c.mapVal(t, k).S), Sort: sortBool})
 			}
 		}
 		return tAnd(facts...)
@@ -579,12 +586,12 @@ func (c *Ctx) typeFacts(t Term, gt types.Type, depth int) Term {
 			if f.Go == nil {
 				continue
 			}
-			facts = append(facts, c.typeFacts(app(f.Sort, f.Sel, t), f.Go, depth+1))
+			facts = append(facts, c.typeFactsQ(app(f.Sort, f.Sel, t), f.Go, q, depth+1))
 		}
 		return tAnd(facts...)
 	case KPtr:
 		if p, ok := gt.Underlying().(*types.Pointer); ok {
-			inner := c.typeFacts(c.ptrVal(t), p.Elem(), depth+1)
+			inner := c.typeFactsQ(c.ptrVal(t), p.Elem(), q, depth+1)
 			return tImp(tNot(c.ptrIsNil(t)), inner)
 		}
 	}
@@ -643,7 +650,7 @@ func (c *Ctx) zero(s *Sort, gt types.Type) Term {
 	case KBool:
 		return tFalse
 	case KStr:
-		return Term{S: "str.empty", Sort: sortStr}
+		return Term{S: "gs.empty", Sort: sortStr}
 	case KErr:
 		return Term{S: "err.nil", Sort: sortErr}
 	case KPtr:
@@ -691,17 +698,17 @@ func (c *Ctx) zero(s *Sort, gt types.Type) Term {
 // and their length and bytes are axiomatised.
 func (c *Ctx) strLit(v string) Term {
 	if v == "" {
-		return Term{S: "str.empty", Sort: sortStr}
+		return Term{S: "gs.empty", Sort: sortStr}
 	}
 	if t, ok := c.strLits[v]; ok {
 		return t
 	}
-	n := fmt.Sprintf("str.lit%d", len(c.strLits))
+	n := fmt.Sprintf("gs.lit%d", len(c.strLits))
 	c.emit(fmt.Sprintf("(declare-const %s Str) ; %q", n, v))
-	c.emit(fmt.Sprintf("(assert (= (str.len %s) %d))", n, len(v)))
+	c.emit(fmt.Sprintf("(assert (= (gs.len %s) %d))", n, len(v)))
 	if len(v) <= 64 {
 		for i := 0; i < len(v); i++ {
-			c.emit(fmt.Sprintf("(assert (= (str.at %s %d) %d))", n, i, v[i]))
+			c.emit(fmt.Sprintf("(assert (= (gs.at %s %d) %d))", n, i, v[i]))
 		}
 	}
 	for _, o := range c.strOrder {
@@ -744,3 +751,11 @@ func (c *Ctx) global(obj *types.Var) Term {
 }
 
 func (c *Ctx) script() string { return strings.Join(c.decls, "\n") + "\n" }
+
+// quantPat builds a universally quantified fact with a trigger, unless the trigger would be illegal (contains ite).
+func quantPat(binder, body, pat string) string {
+	if strings.Contains(pat, "(ite ") || strings.Contains(pat, "(=> ") || strings.Contains(pat, "!") && strings.Count(pat, "!") > 1 {
+		return fmt.Sprintf("(forall (%s) %s)", binder, body)
+	}
+	return fmt.Sprintf("(forall (%s) (! %s :pattern (%s)))", binder, body, pat)
+}
